@@ -154,6 +154,15 @@ def make_value(eng, path, name, kind, tag, fi=None):
         path.fields(obj)["_Class__verbose"] = SStr([Atom(z3.String(f"verbose_{name}_{obj.oid}"), "opq", {"key": f"verbose_{name}"})])
         path.fields(obj)["_ghost_classarg"] = SStr([Atom(z3.String(f"classarg_{name}_{obj.oid}"), "opq", {"key": f"classarg_{name}"})])
         return obj
+    if kind == "selfc" and tag.split("+")[0] == "Empty":
+        # the matching API hands the pattern to re as it is: the empty pattern is a text of length 0 for it, not a constant of
+        # the library's own code (constants are interpreted, R3; the instance's pattern goes to the R8 oracle)
+        t = z3.String(f"pat_{name}_empty")
+        path.assume(z3.Length(t) == 0)
+        obj = new_pregex(eng, path, name, "Empty", text=SStr([Atom(t, "pat", {"type": "Empty", "label": name})]))
+        if tag.endswith("+compiled"):
+            path.fields(obj)["_Pregex__compiled"] = RM.CompiledV(path.fields(obj)["_Pregex__pattern"], FLAGS_MS)
+        return obj
     if tag in TYPE_NAMES:
         return new_pregex(eng, path, name, tag)
     if tag.endswith("+compiled"):
